@@ -211,8 +211,12 @@ fn check(case: &Case) -> Outcome {
                     // outsider obtains by running the documented derivation on public data in place of the secret
                     let mut peer32 = peer_bytes.clone();
                     peer32.resize(32, 0);
+                    // (a public candidate that happens to be the encoding of the local secret itself - a secret of 3 and the
+                    // one-byte peer string 03 - says nothing and is skipped)
+                    let own_secret = pf::to_le(&s1, 32);
                     for tag in [0x46u8, 0x53] {
                         for (what, x) in [("zeros / the encoding of the neutral", vec![0u8; 32]), ("the peer bytes", peer32.clone()), ("the local public key", pk1.clone())] {
+                            if x == own_secret { acc.tag("public_candidate_equals_secret_skipped"); continue; }
                             let guess = sch.ecdh_kdf(&pk1, &peer_bytes, tag, &x);
                             acc.check(guess != *k1, || format!("C09:{name}:ecdh:failure_key_public"), || format!("ECDH(peer={}) failed with key {} = KDF(public keys, tag {tag:#x}, {what}): computable without the local secret", hex(&peer_bytes), hex(k1)));
                         }
